@@ -142,7 +142,8 @@ def discharge(verifier, obligations, budget=10, jobs=None, workdir=None,
         exclude = ()
         if ob.fn and ob.fn.startswith('lemma:'):
             names = list(eng.specs.lemmas)
-            exclude = set(names[names.index(ob.fn[6:]):])
+            if ob.fn[6:] in names:
+                exclude = set(names[names.index(ob.fn[6:]):])
         axioms = verifier.axioms_for(fs, depth=eng.opts.get('unfold', 2),
                                      exclude=exclude)
         ob.axioms = axioms
